@@ -137,6 +137,8 @@ def cells(tier, seed):
             out.append(mk(2, 2, e, "all"))
     out.append({"D": 2, "N": 3, "special": "identities", "gs": "all", "expr": None})
     out.append({"D": 3, "N": 2, "special": "identities", "gs": "generators", "expr": None})
+    out.append({"D": 2, "N": 4, "special": "metadata", "gs": "all", "expr": None})
+    out.append({"D": 3, "N": 2, "special": "metadata", "gs": "generators", "expr": None})
     return out
 
 
@@ -200,6 +202,9 @@ def run_cell(cfg, cx):
     gs = group_elements(D, cfg["gs"])
     # LeviCivitaSymbol caches a jnp array on first use; fill the cache outside any trace, as ordinary eager use does
     geom.LeviCivitaSymbol.get(D)
+    if cfg.get("special") == "metadata":
+        _metadata(cfg, cx, gs)
+        return
     if cfg.get("special"):
         _identities(cfg, cx, gs)
         return
@@ -396,6 +401,59 @@ def _identities(cfg, cx, gs):
     # constructor reduces parity mod 2
     par = [geom.GeometricImage(jnp.zeros((N,) * D), q, D).parity for q in (0, 1, 2, 3, -1)]
     cx.structural("parity mod 2", par == [0, 1, 0, 1, 1], f"parities {par}")
+
+
+def _metadata(cfg, cx, gs):
+    """Declared (k, parity, D, is_torus) of the result of EVERY GeometricImage operation, on every input type with k<=2 (3 where an
+    operation needs it), both parities, uniform and mixed boundary flags - the declared type is how the result transforms (the
+    expression-tree cells prove that it does), so a wrong declaration anywhere is a type-soundness defect."""
+    import jax.numpy as jnp
+    import ginjax.geometric as geom
+    from props.common import perm_axes
+    D, N = cfg["D"], cfg["N"]
+    shape = (N,) * D
+    for flags in ((True,) * D, (False,) * D, tuple(i % 2 == 0 for i in range(D))):
+        for k in range(0, 4):
+            for p in (0, 1):
+                if D == 3 and k == 3 and p == 1:
+                    continue
+                a = geom.GeometricImage(jnp.ones(shape + (D,) * k), p, D, flags)
+                b = geom.GeometricImage(jnp.ones(shape + (D,) * k) * 2, p, D, flags)
+                cases = {
+                    "copy": (lambda: a.copy(), (k, p, flags)), "a+b": (lambda: a + b, (k, p, flags)), "a-b": (lambda: a - b, (k, p, flags)),
+                    "a*2": (lambda: a * 2.0, (k, p, flags)), "2*a": (lambda: 2.0 * a, (k, p, flags)), "times_scalar": (lambda: a.times_scalar(3.0), (k, p, flags)),
+                    "norm": (lambda: a.norm(), (0, 0, flags)), "normalize": (lambda: a.normalize(), (k, p, flags)),
+                    "average_pool": (lambda: a.average_pool(2), (k, p, flags)), "max_pool": (lambda: a.max_pool(2), (k, p, flags)),
+                    "unpool": (lambda: a.unpool(2), (k, p, flags)),
+                    "jit": (lambda: __import__("jax").jit(lambda q: q)(a), (k, p, flags)),
+                    "zeros": (lambda: geom.GeometricImage.zeros(N, k, p, D, flags), (k, p, flags)),
+                    "fill": (lambda: geom.GeometricImage.fill(N, p, D, jnp.ones((D,) * k), flags), (k, p, flags)),
+                }
+                if k == 0:  # (the library only defines activations on k=0 images)
+                    cases["activation_function"] = (lambda: a.activation_function(jnp.tanh), (k, p, flags))
+                if k >= 2:
+                    cases["transpose"] = (lambda: a.transpose(tuple(range(k))[::-1]), (k, p, flags))
+                    cases["contract"] = (lambda: a.contract(0, k - 1), (k - 2, p, flags))
+                    cases["multicontract"] = (lambda: a.multicontract(((0, 1),)), (k - 2, p, flags))
+                if k >= D - 1:
+                    cases["levi_civita_contract"] = (lambda: a.levi_civita_contract(tuple(range(D - 1)) if D > 2 else 0), (k - D + 2, (p + 1) % 2, flags))
+                for k2, p2 in ((0, 1), (1, 0), (1, 1)):
+                    if k + k2 <= 3:
+                        c = geom.GeometricImage(jnp.ones(shape + (D,) * k2), p2, D, flags)
+                        cases[f"a*c[{k2},{p2}]"] = (lambda c=c: a * c, (k + k2, (p + p2) % 2, flags))
+                        f_ = geom.GeometricImage(jnp.ones((3,) * D + (D,) * k2), p2, D, flags)
+                        cases[f"convolve_with[{k2},{p2}]"] = (lambda f_=f_: a.convolve_with(f_), (k + k2, (p + p2) % 2, flags))
+                for g in gs[:4]:
+                    cases[f"times_group_element[{gkey(g)}]"] = (lambda g=g: a.times_group_element(np.asarray(g)), (k, p, tuple(perm_axes(g, flags))))
+                for nm, (fn, (ek, ep, ef)) in cases.items():
+                    try:
+                        o = fn()
+                        got = (o.k, o.parity, o.D, tuple(o.is_torus))
+                    except Exception as e:  # noqa: BLE001
+                        got = f"raised {type(e).__name__}: {str(e)[:80]}"
+                    cx.structural(f"declared type of {nm} on (k={k},p={p},flags={flags})", got == (ek, ep, D, tuple(ef)),
+                                  f"declared (k, parity, D, is_torus) = {got}, expected {(ek, ep, D, tuple(ef))}",
+                                  key=f"meta:{nm}:D={D}:k={k}:p={p}:flags={flags}")
 
 
 def _shift(pair, removed):
